@@ -483,15 +483,43 @@ Proof.
   - rewrite find_put_other in Hf by exact E. apply H; auto. apply lookup_intro; auto.
 Qed.
 
+Lemma fail_node_coh s n : coh s -> coh (fail_node s n).
+Proof. intro H. exact H. Qed.
+
+Lemma load_primary_coh c s p t : wf_db (db s) -> coh s -> coh (fst (load_primary c s p t)).
+Proof.
+  intros W H. unfold load_primary.
+  destruct (dbFault s); [exact H|].
+  destruct (db_get p (db s)) as [[u v]|] eqn:G.
+  - destruct (key_down c s (KP p)); [exact H|].
+    destruct (ttl_ok (expiry_of c) t); [|exact H]. cbn [fst]. apply coh_put; auto.
+  - destruct (key_down c s (KP p)); [exact H|].
+    destruct (ttl_ok (nf_of c) t); [|exact H]. cbn [fst]. apply coh_put; auto.
+Qed.
+
 Lemma take_primary_coh c s p t : wf_db (db s) -> coh s -> coh (fst (take_primary c s p t)).
 Proof.
   intros W H. unfold take_primary.
   destruct (key_down c s (KP p)); [exact H|].
   destruct (lookup (clock s) (cache s) (KP p)) as [[[u v|q|] x]|] eqn:L; try exact H.
-  destruct (dbFault s); [exact H|].
-  destruct (db_get p (db s)) as [[u v]|] eqn:G.
-  - destruct (ttl_ok (expiry_of c) t); [|exact H]. cbn. apply coh_put; auto.
-  - destruct (ttl_ok (nf_of c) t); [|exact H]. cbn. apply coh_put; auto.
+  apply load_primary_coh; auto.
+Qed.
+
+Lemma take_mid_coh c s p t n : wf_db (db s) -> coh s -> coh (fst (take_mid c s p t n)).
+Proof.
+  intros W H. unfold take_mid.
+  destruct (key_down c s (KP p)); [exact H|].
+  destruct (lookup (clock s) (cache s) (KP p)).
+  - apply take_primary_coh; auto.
+  - apply load_primary_coh; auto.
+Qed.
+
+Lemma load_primary_db c s p t : db (fst (load_primary c s p t)) = db s.
+Proof.
+  unfold load_primary. destruct (dbFault s); auto.
+  destruct (db_get p (db s)) as [[u v]|]; destruct (key_down c s (KP p)); auto.
+  - destruct (ttl_ok (expiry_of c) t); auto.
+  - destruct (ttl_ok (nf_of c) t); auto.
 Qed.
 
 Lemma take_primary_db c s p t : db (fst (take_primary c s p t)) = db s.
@@ -499,10 +527,24 @@ Proof.
   unfold take_primary.
   destruct (key_down c s (KP p)); auto.
   destruct (lookup (clock s) (cache s) (KP p)) as [[[u v|q|] x]|]; auto.
-  destruct (dbFault s); auto.
-  destruct (db_get p (db s)) as [[u v]|].
-  - destruct (ttl_ok (expiry_of c) t); auto.
-  - destruct (ttl_ok (nf_of c) t); auto.
+  apply load_primary_db.
+Qed.
+
+Lemma take_mid_db c s p t n : db (fst (take_mid c s p t n)) = db s.
+Proof.
+  unfold take_mid. destruct (key_down c s (KP p)); auto.
+  destruct (lookup (clock s) (cache s) (KP p)).
+  - apply take_primary_db.
+  - apply (load_primary_db c (fail_node s n)).
+Qed.
+
+Lemma load_index_db c s u t : db (fst (load_index c s u t)) = db s.
+Proof.
+  unfold load_index. destruct (dbFault s); auto.
+  destruct (db_by_u u (db s)) as [[p [u' v]]|].
+  - destruct (key_down c s (KP p)); auto. destruct (ttl_ok (expiry_of c) t); auto.
+    destruct (key_down c s (KU u)); auto.
+  - destruct (key_down c s (KU u)); auto. destruct (ttl_ok (nf_of c) t); auto.
 Qed.
 
 Lemma query_index_db c s u t : db (fst (query_index c s u t)) = db s.
@@ -511,10 +553,34 @@ Proof.
   destruct (key_down c s (KU u)); auto.
   destruct (lookup (clock s) (cache s) (KU u)) as [[[u0 v0|q|] x]|]; auto.
   - apply take_primary_db.
-  - destruct (dbFault s); auto.
-    destruct (db_by_u u (db s)) as [[p [u' v]]|].
-    + destruct (key_down c s (KP p)); auto. destruct (ttl_ok (expiry_of c) t); auto.
-    + destruct (ttl_ok (nf_of c) t); auto.
+  - apply load_index_db.
+Qed.
+
+Lemma query_index_mid_db c s u t n : db (fst (query_index_mid c s u t n)) = db s.
+Proof.
+  unfold query_index_mid.
+  destruct (key_down c s (KU u)); auto.
+  destruct (lookup (clock s) (cache s) (KU u)) as [[[u0 v0|q|] x]|]; auto.
+  - apply take_mid_db.
+  - apply (load_index_db c (fail_node s n)).
+Qed.
+
+Lemma load_index_coh c s u t : wf_db (db s) -> coh s -> coh (fst (load_index c s u t)).
+Proof.
+  intros W H. unfold load_index.
+  destruct (dbFault s); [exact H|].
+  destruct (db_by_u u (db s)) as [[p [u' v]]|] eqn:G.
+  - destruct (key_down c s (KP p)); [exact H|].
+    destruct (ttl_ok (expiry_of c) t); [|exact H].
+    destruct (db_by_u_some _ _ _ _ _ W G) as [-> G'].
+    pose (s1 := set_cache s (put (KP p) (mkEntry (CRow u v) (exp_of (clock s) (t + safe_gap))) (cache s))).
+    assert (H1 : coh s1) by (apply coh_put; auto).
+    destruct (key_down c s (KU u)); [exact H1|]. cbn [fst].
+    change (coh (set_cache s1 (put (KU u) (mkEntry (CPk p) (exp_of (clock s1) t)) (cache s1)))).
+    apply coh_put; auto. cbn. exists v. exact G'.
+  - destruct (key_down c s (KU u)); [exact H|].
+    destruct (ttl_ok (nf_of c) t); [|exact H]. cbn [fst]. apply coh_put; auto.
+    cbn. apply db_by_u_none. exact G.
 Qed.
 
 Lemma query_index_coh c s u t : wf_db (db s) -> coh s -> coh (fst (query_index c s u t)).
@@ -523,18 +589,16 @@ Proof.
   destruct (key_down c s (KU u)); [exact H|].
   destruct (lookup (clock s) (cache s) (KU u)) as [[[u0 v0|q|] x]|] eqn:L; try exact H.
   - apply take_primary_coh; auto.
-  - destruct (dbFault s); [exact H|].
-    destruct (db_by_u u (db s)) as [[p [u' v]]|] eqn:G.
-    + destruct (key_down c s (KP p)); [exact H|].
-      destruct (ttl_ok (expiry_of c) t); [|exact H].
-      destruct (db_by_u_some _ _ _ _ _ W G) as [-> G'].
-      cbn.
-      pose (s1 := set_cache s (put (KP p) (mkEntry (CRow u v) (exp_of (clock s) (t + safe_gap))) (cache s))).
-      assert (H1 : coh s1) by (apply coh_put; auto).
-      change (coh (set_cache s1 (put (KU u) (mkEntry (CPk p) (exp_of (clock s1) t)) (cache s1)))).
-      apply coh_put; auto. cbn. exists v. exact G'.
-    + destruct (ttl_ok (nf_of c) t); [|exact H]. cbn. apply coh_put; auto.
-      cbn. apply db_by_u_none. exact G.
+  - apply load_index_coh; auto.
+Qed.
+
+Lemma query_index_mid_coh c s u t n : wf_db (db s) -> coh s -> coh (fst (query_index_mid c s u t n)).
+Proof.
+  intros W H. unfold query_index_mid.
+  destruct (key_down c s (KU u)); [exact H|].
+  destruct (lookup (clock s) (cache s) (KU u)) as [[[u0 v0|q|] x]|] eqn:L; try exact H.
+  - apply take_mid_coh; auto.
+  - apply (load_index_coh c (fail_node s n)); auto.
 Qed.
 
 (* --- Exec *)
@@ -612,6 +676,8 @@ Proof.
   - exact W.
   - cbn [fst]. apply (iter_tick_inv (fun s' => wf_db (db s'))); auto.
     intros s' H. destruct (tick_frame s') as (E & _). rewrite E. exact H.
+  - rewrite take_mid_db. exact W.
+  - rewrite query_index_mid_db. exact W.
 Qed.
 
 Lemma step_coh c s o :
@@ -639,6 +705,8 @@ Proof.
   - exact H.
   - exact H.
   - cbn [fst]. apply (iter_tick_inv coh); auto. apply tick_coh.
+  - apply take_mid_coh; auto.
+  - apply query_index_mid_coh; auto.
 Qed.
 
 Lemma final_coh c ops : forall s,
@@ -656,6 +724,20 @@ Lemma init_coh rows : coh (init rows).
 Proof. intros k e Hl. cbn in Hl. discriminate. Qed.
 
 (* ------------------------------------------------------------------ what a read returns *)
+Lemma load_primary_sound c s p t :
+  let ob := snd (load_primary c s p t) in
+  (forall p' u v, oret ob = RRow p' u v -> p' = p /\ db_get p (db s) = Some (u, v)) /\
+  (oret ob = RNf -> db_get p (db s) = None).
+Proof.
+  unfold load_primary.
+  destruct (dbFault s); [cbn; split; [intros; discriminate | discriminate]|].
+  destruct (db_get p (db s)) as [[u v]|] eqn:G.
+  - destruct (key_down c s (KP p)); [|destruct (ttl_ok (expiry_of c) t)]; cbn;
+      (split; [|discriminate]); intros p' u' v' E; inversion E; subst; auto.
+  - destruct (key_down c s (KP p)); [|destruct (ttl_ok (nf_of c) t)]; cbn;
+      (split; [intros; discriminate|]); auto; discriminate.
+Qed.
+
 Lemma take_primary_sound c s p t :
   coh s -> dirty s (KP p) = false ->
   let ob := snd (take_primary c s p t) in
@@ -669,10 +751,20 @@ Proof.
     intros p' u' v' E. inversion E. subst. auto.
   - cbn. split; [intros; discriminate | discriminate].
   - specialize (H _ _ L Hd eq_refl). cbn in *. split; [intros; discriminate | auto].
-  - destruct (dbFault s); [cbn; split; [intros; discriminate | discriminate]|].
-    destruct (db_get p (db s)) as [[u v]|] eqn:G.
-    + destruct (ttl_ok (expiry_of c) t); cbn; (split; [|discriminate]); intros p' u' v' E; inversion E; subst; auto.
-    + destruct (ttl_ok (nf_of c) t); cbn; (split; [intros; discriminate|]); auto; discriminate.
+  - apply load_primary_sound.
+Qed.
+
+Lemma take_mid_sound c s p t n :
+  coh s -> dirty s (KP p) = false ->
+  let ob := snd (take_mid c s p t n) in
+  (forall p' u v, oret ob = RRow p' u v -> p' = p /\ db_get p (db s) = Some (u, v)) /\
+  (oret ob = RNf -> db_get p (db s) = None).
+Proof.
+  intros H Hd. unfold take_mid.
+  destruct (key_down c s (KP p)) eqn:K; [cbn; split; [intros; discriminate | discriminate]|].
+  destruct (lookup (clock s) (cache s) (KP p)) eqn:L.
+  - apply take_primary_sound; auto.
+  - apply (load_primary_sound c (fail_node s n)).
 Qed.
 
 Lemma get_primary_sound c s p :
@@ -685,51 +777,95 @@ Proof.
   specialize (H _ _ L Hd eq_refl). cbn in H. intros p' u' v' E. inversion E. subst. auto.
 Qed.
 
+Lemma load_index_sound c s u t :
+  wf_db (db s) ->
+  let ob := snd (load_index c s u t) in
+  (forall p u' v, oret ob = RRow p u' v -> u' = u /\ db_get p (db s) = Some (u, v)) /\
+  (oret ob = RNf -> forall p v, db_get p (db s) <> Some (u, v)).
+Proof.
+  intros W. unfold load_index.
+  destruct (dbFault s); [cbn; split; [intros; discriminate | discriminate]|].
+  destruct (db_by_u u (db s)) as [[p [u' v]]|] eqn:G.
+  - destruct (db_by_u_some _ _ _ _ _ W G) as [-> G'].
+    destruct (key_down c s (KP p)); [cbn; split; [intros; discriminate | discriminate]|].
+    destruct (ttl_ok (expiry_of c) t); [destruct (key_down c s (KU u))|]; cbn;
+      (split; [|discriminate]); intros p' u' v' E; inversion E; subst; auto.
+  - destruct (key_down c s (KU u)); [|destruct (ttl_ok (nf_of c) t)]; cbn;
+      (split; [intros; discriminate|]); try discriminate; intros _; apply db_by_u_none; exact G.
+Qed.
+
+Definition index_claim (s : state) (u : Z) (ob : obs) : Prop :=
+  (forall p u' v, oret ob = RRow p u' v -> u' = u /\ db_get p (db s) = Some (u, v)) /\
+  (oret ob = RNf -> forall p v, db_get p (db s) <> Some (u, v)).
+
+Lemma via_primary s u q x (ob : obs) :
+  coh s -> dirty s (KU u) = false ->
+  lookup (clock s) (cache s) (KU u) = Some (mkEntry (CPk q) x) ->
+  ((forall p' u0 v, oret ob = RRow p' u0 v -> p' = q /\ db_get q (db s) = Some (u0, v)) /\
+   (oret ob = RNf -> db_get q (db s) = None)) -> index_claim s u ob.
+Proof.
+  intros H Hd L [A B]. pose proof (H _ _ L Hd eq_refl) as Hq. cbn in Hq. destruct Hq as [w Hw]. split.
+  - intros p u' v E. destruct (A _ _ _ E) as [-> G]. rewrite Hw in G. inversion G. subst. auto.
+  - intro E. apply B in E. congruence.
+Qed.
+
 Lemma query_index_sound c s u t :
   wf_db (db s) -> coh s -> dirty s (KU u) = false ->
   (forall e p, lookup (clock s) (cache s) (KU u) = Some e -> eval e = CPk p -> dirty s (KP p) = false) ->
-  let ob := snd (query_index c s u t) in
-  (forall p u' v, oret ob = RRow p u' v -> u' = u /\ db_get p (db s) = Some (u, v)) /\
-  (oret ob = RNf -> forall p v, db_get p (db s) <> Some (u, v)).
+  index_claim s u (snd (query_index c s u t)).
 Proof.
   intros W H Hd Hp. unfold query_index.
   destruct (key_down c s (KU u)); [cbn; split; [intros; discriminate | discriminate]|].
   destruct (lookup (clock s) (cache s) (KU u)) as [[[u0 v0|q|] x]|] eqn:L.
   - cbn. split; [intros; discriminate | discriminate].
-  - pose proof (H _ _ L Hd eq_refl) as Hq. cbn in Hq. destruct Hq as [w Hw].
-    destruct (take_primary_sound c s q t H (Hp _ _ eq_refl eq_refl)) as [A B].
-    split.
-    + intros p u' v E. destruct (A _ _ _ E) as [-> G]. rewrite Hw in G. inversion G. subst. auto.
-    + intro E. apply B in E. congruence.
+  - eapply via_primary; eauto. apply take_primary_sound; auto. eapply Hp; eauto.
   - specialize (H _ _ L Hd eq_refl). cbn in *. split; [intros; discriminate | auto].
-  - destruct (dbFault s); [cbn; split; [intros; discriminate | discriminate]|].
-    destruct (db_by_u u (db s)) as [[p [u' v]]|] eqn:G.
-    + destruct (db_by_u_some _ _ _ _ _ W G) as [-> G'].
-      destruct (key_down c s (KP p)); [cbn; split; [intros; discriminate | discriminate]|].
-      destruct (ttl_ok (expiry_of c) t); cbn; (split; [|discriminate]); intros p' u' v' E; inversion E; subst; auto.
-    + destruct (ttl_ok (nf_of c) t); cbn; (split; [intros; discriminate|]); try discriminate.
-      intros _. apply db_by_u_none. exact G.
+  - apply load_index_sound; auto.
 Qed.
+
+Lemma query_index_mid_sound c s u t n :
+  wf_db (db s) -> coh s -> dirty s (KU u) = false ->
+  (forall e p, lookup (clock s) (cache s) (KU u) = Some e -> eval e = CPk p -> dirty s (KP p) = false) ->
+  index_claim s u (snd (query_index_mid c s u t n)).
+Proof.
+  intros W H Hd Hp. unfold query_index_mid.
+  destruct (key_down c s (KU u)); [cbn; split; [intros; discriminate | discriminate]|].
+  destruct (lookup (clock s) (cache s) (KU u)) as [[[u0 v0|q|] x]|] eqn:L.
+  - cbn. split; [intros; discriminate | discriminate].
+  - eapply via_primary; eauto. apply take_mid_sound; auto. eapply Hp; eauto.
+  - specialize (H _ _ L Hd eq_refl). cbn in *. split; [intros; discriminate | auto].
+  - apply (load_index_sound c (fail_node s n)); auto.
+Qed.
+
+
+Definition take_like (o : op) (p : Z) : Prop :=
+  (exists t, o = OTake p t) \/ (exists t n, o = OTakeMid p t n).
+Definition qri_like (o : op) (u : Z) : Prop :=
+  (exists t, o = OQri u t) \/ (exists t n, o = OQriMid u t n).
 
 Lemma coherent_reads_lemma c rows ops :
   NoDup (map fst rows) -> all_disciplined c (init rows) ops = true ->
   let s := final c (init rows) ops in
-  (forall p t, dirty s (KP p) = false ->
-     db (fst (step c s (OTake p t))) = db s /\
-     (forall p' u v, oret (snd (step c s (OTake p t))) = RRow p' u v -> p' = p /\ db_get p (db s) = Some (u, v)) /\
-     (oret (snd (step c s (OTake p t))) = RNf -> db_get p (db s) = None)) /\
+  (forall p o, take_like o p -> dirty s (KP p) = false ->
+     db (fst (step c s o)) = db s /\
+     (forall p' u v, oret (snd (step c s o)) = RRow p' u v -> p' = p /\ db_get p (db s) = Some (u, v)) /\
+     (oret (snd (step c s o)) = RNf -> db_get p (db s) = None)) /\
   (forall p, dirty s (KP p) = false ->
      forall p' u v, oret (snd (step c s (OGet p))) = RRow p' u v -> p' = p /\ db_get p (db s) = Some (u, v)) /\
-  (forall u t, dirty s (KU u) = false ->
+  (forall u o, qri_like o u -> dirty s (KU u) = false ->
      (forall e p, lookup (clock s) (cache s) (KU u) = Some e -> eval e = CPk p -> dirty s (KP p) = false) ->
-     db (fst (step c s (OQri u t))) = db s /\
-     (forall p u' v, oret (snd (step c s (OQri u t))) = RRow p u' v -> u' = u /\ db_get p (db s) = Some (u, v)) /\
-     (oret (snd (step c s (OQri u t))) = RNf -> forall p v, db_get p (db s) <> Some (u, v))).
+     db (fst (step c s o)) = db s /\
+     (forall p u' v, oret (snd (step c s o)) = RRow p u' v -> u' = u /\ db_get p (db s) = Some (u, v)) /\
+     (oret (snd (step c s o)) = RNf -> forall p v, db_get p (db s) <> Some (u, v))).
 Proof.
   intros ND D s.
   destruct (final_coh c ops (init rows) ND (init_coh rows) D) as [W H]. fold s in W, H.
   split; [|split].
-  - intros p t Hd. cbn. split; [apply take_primary_db|]. apply take_primary_sound; auto.
+  - intros p o [[t ->]|[t [n ->]]] Hd; cbn [step].
+    + split; [apply take_primary_db|]. apply take_primary_sound; auto.
+    + split; [apply take_mid_db|]. apply take_mid_sound; auto.
   - intros p Hd. cbn. apply get_primary_sound; auto.
-  - intros u t Hd Hp. cbn. split; [apply query_index_db|]. apply query_index_sound; auto.
+  - intros u o [[t ->]|[t [n ->]]] Hd Hp; cbn [step].
+    + split; [apply query_index_db|]. apply query_index_sound; auto.
+    + split; [apply query_index_mid_db|]. apply query_index_mid_sound; auto.
 Qed.
